@@ -1012,6 +1012,14 @@ def _finalize_fairy(
                 # detached connection: nothing else will ever close it
                 pool._close_connection(dbapi_connection, terminate=True)
             if not isinstance(e, Exception):
+                # exit exception (KeyboardInterrupt, GreenletExit, ...): the
+                # record was invalidated above; still return it to the pool,
+                # otherwise its slot is lost for good
+                if (
+                    connection_record
+                    and connection_record.fairy_ref is not None
+                ):
+                    connection_record.checkin()
                 raise
         finally:
             if detach and is_gc_cleanup and dont_restore_gced:
